@@ -162,3 +162,19 @@ package bytesconv
 //@     invariant 1 <= i && i <= 20 && 0 <= n && n <= old(n)
 //@     invariant forall(k, i, 20, isDigit(buf[k]))
 //@     invariant fold10(buf, i, 20, n) == old(n)
+
+// ---- the abstract writer: assumed contracts of network.Writer ----
+// out: the array that holds everything written so far; wlen: number of bytes written. Malloc hands out
+// the next window of that array, so filling the returned buffer fills the output.
+//@ ghost field *.out int
+//@ ghost field *.wlen int
+//@ interface network.Writer.Malloc(this, n) buf, err
+//@   modifies this.wlen
+//@   ensures err == nil ==> len(buf) == n && arr(buf) == this.out && off(buf) == old(this.wlen) && this.wlen == old(this.wlen) + n
+//@   ensures err != nil ==> this.wlen == old(this.wlen) && len(buf) == 0
+//@ interface network.Writer.WriteBinary(this, b) n, err
+//@   modifies this.wlen, bytes(mkslice(this.out, this.wlen, len(b)))
+//@   ensures err == nil ==> n == len(b) && this.wlen == old(this.wlen) + len(b) && forall(k, 0, len(b), mkslice(this.out, old(this.wlen), len(b))[k] == old(b[k]))
+//@   ensures err != nil ==> this.wlen == old(this.wlen)
+//@ interface network.Writer.Flush(this) err
+
